@@ -35,13 +35,16 @@ CODES = {
     9: ("semaphore-slot-leaked", "a semaphore slot was still taken although NumTasks() was 0 and the task that took it had ended (returned or panicked)"),
     10: ("throttled-with-room", "RunLimitedAsyncTask returned ErrThrottled although fewer than cap calls could have held a slot"),
     11: ("task-count-not-restored", "NumTasks() is negative or counts more calls than can be between runPrelude and runPostlude: a submission that was refused / returned an error (or is over) is still counted"),
+    13: ("stop-context-cancelled-before-drain", "a WithCancelOnStop context (whose own cancel function was not called) was cancelled while task bodies were still to begin or end: the stop cancellation was delivered before the tasks were drained"),
+    14: ("context-not-cancelled", "ShouldQuiesce / ShouldStop was seen closed and a WithCancelOnQuiesce / WithCancelOnStop context read afterwards was not cancelled"),
     12: ("stop-did-not-return", "every task and worker body had been told to return and Stop had been called, but the stopper did not report itself stopped / a Stop or Quiesce call did not return"),
 }
 
 RULE = ("controlled: random operation sequences (RunTask, RunAsyncTask and RunLimitedAsyncTask with wait true/false, each with the "
         "background context or a WithCancelOn* context that is live, already cancelled, or cancelled while the call waits for its slot, on 2 semaphores, a chosen running body returns or PANICS (Stopper built with OnPanic), "
         "RunWorker, a worker returns or panics, "
-        "AddCloser, WithCancelOnQuiesce/Stop, call of a returned cancel function, Stop, Quiesce; several Stop/Quiesce per "
+        "AddCloser, WithCancelOnQuiesce/Stop, call of a returned cancel function, Stop and Quiesce called with the background context "
+        "or a WithCancelOn* context that is live, already cancelled or cancelled while they wait; several Stop/Quiesce per "
         "sequence), total length <= 25 (thorough 40) including a closing tail that releases everything and calls Stop; "
         "executed on the real Stopper with harness-controlled bodies, observables after every operation compared with the "
         "model, event history judged by the oracle.  non-trivial = a Stop or Quiesce was called while a task ran, a worker "
